@@ -55,6 +55,9 @@ def build_corpus(tier, rng):
         if names[0] == "r#Self_":
             names = ["r#async", "Async", "r#dyn"]
         items.append(("raw-sibling", Item("E", [Variant(n_, "unit") for n_ in names])))
+    # the ENUM is named by a raw identifier: the table type is named after the un-rawed name
+    items.append(("raw-enum-name", Item("r#type", [Variant("Alpha", "unit"), Variant("Beta", "unit", [], [DISABLED]), Variant("Gamma", "unit")])))
+    items.append(("raw-enum-name", Item("r#dyn", [Variant("r#fn", "unit"), Variant("Beta", "unit")])))
     # non-ASCII identifiers (with digits after the non-ASCII letter): the slot names are derived from them
     items.append(("non-ascii", Item("E", [Variant("Größe42", "unit"), Variant("É1", "unit", [], [DISABLED]), Variant("变7x", "unit"), Variant("Plain", "unit"), Variant("Öl2", "unit")])))
     # the enum comes out of a macro_rules! expansion, the VARIANT NAMES handed in as `ident` fragments (other hygiene context than the derive)
